@@ -452,6 +452,96 @@ CASES += [
     ("complex method mean/sum", "lambda anp, x: x.mean(axis=0) + x.sum()", [((2, 2), "C")], (0,)),
     ("complex method T/reshape", "lambda anp, x: x.T.reshape(-1)", [((2, 3), "C")], (0,)),
 ]
+
+# ---- linalg: remaining shape classes / option combinations
+_eye = lambda n: f"3 * anp.eye({n})"
+CASES += [
+    ("svd wide usv", "lambda anp, x: (lambda u, s, v: anp.dot(u * s, v))(*anp.linalg.svd(x, full_matrices=False))", [((2, 3), "R")], (0,)),
+    ("svd square usv", "lambda anp, x: (lambda u, s, v: anp.dot(u * s, v))(*anp.linalg.svd(x, full_matrices=False))", [((3, 3), "R")], (0,)),
+    ("svd batched usv", "lambda anp, x: (lambda u, s, v: anp.matmul(u * s[..., None, :], v))(*anp.linalg.svd(x, full_matrices=False))", [((2, 3, 2), "R")], (0,)),
+    ("svd |u| tall", "lambda anp, x: anp.abs(anp.linalg.svd(x, full_matrices=False)[0])", [((3, 2), "R")], (0,)),
+    ("svd |vt| tall", "lambda anp, x: anp.abs(anp.linalg.svd(x, full_matrices=False)[2])", [((3, 2), "R")], (0,)),
+    ("svd |u| wide", "lambda anp, x: anp.abs(anp.linalg.svd(x, full_matrices=False)[0])", [((2, 3), "R")], (0,)),
+    ("svd s wide", "lambda anp, x: anp.linalg.svd(x, compute_uv=False)", [((2, 3), "R")], (0,)),
+    ("svd complex usv", "lambda anp, x: (lambda u, s, v: anp.dot(u * s, v))(*anp.linalg.svd(x, full_matrices=False))", [((2, 2), "C")], (0,)),
+    ("eigh vals stacked", "lambda anp, x: anp.linalg.eigh(x + anp.swapaxes(x, -1, -2))[0]", [((2, 2, 2), "R")], (0,)),
+    ("eigh |vecs|", "lambda anp, x: anp.abs(anp.linalg.eigh(x + x.T)[1])", [((3, 3), "R")], (0,)),
+    ("eigh |vecs| UPLO=U", "lambda anp, x: anp.abs(anp.linalg.eigh(x + x.T, 'U')[1])", [((3, 3), "R")], (0,)),
+    ("eigh reads only the lower triangle", "lambda anp, x: anp.linalg.eigh(x)[0]", [((3, 3), "R")], (0,)),
+    ("eigh reads only the upper triangle", "lambda anp, x: anp.linalg.eigh(x, UPLO='U')[0]", [((3, 3), "R")], (0,)),
+    ("eig vals sym-part", "lambda anp, x: anp.real(anp.linalg.eig(x + x.T + 3 * anp.eye(3))[0])", [((3, 3), "R")], (0,)),
+    ("inv", "lambda anp, x: anp.linalg.inv(x + 3 * anp.eye(3))", [((3, 3), "R")], (0,)),
+    ("inv complex", "lambda anp, x: anp.linalg.inv(x + 3 * anp.eye(2))", [((2, 2), "C")], (0,)),
+    ("det", "lambda anp, x: anp.linalg.det(x)", [((3, 3), "R")], (0,)),
+    ("det complex", "lambda anp, x: anp.linalg.det(x)", [((2, 2), "C")], (0,)),
+    ("slogdet stacked", "lambda anp, x: anp.linalg.slogdet(x + 3 * anp.eye(2))[1]", [((2, 2, 2), "R")], (0,)),
+    ("slogdet complex", "lambda anp, x: anp.linalg.slogdet(x + 3 * anp.eye(2))[1]", [((2, 2), "C")], (0,)),
+    ("pinv stacked", "lambda anp, x: anp.linalg.pinv(x)", [((2, 3, 2), "R")], (0,)),
+    ("pinv square", "lambda anp, x: anp.linalg.pinv(x + 3 * anp.eye(3))", [((3, 3), "R")], (0,)),
+    ("pinv complex", "lambda anp, x: anp.linalg.pinv(x)", [((3, 2), "C")], (0,)),
+    ("solve complex", "lambda anp, x, y: anp.linalg.solve(x + 3 * anp.eye(2), y)", [((2, 2), "C"), ((2, 2), "C")], (0, 1)),
+    ("solve real A complex b", "lambda anp, x, y: anp.linalg.solve(x + 3 * anp.eye(2), y)", [((2, 2), "R"), ((2,), "C")], (0, 1)),
+    ("solve stacked A, matrix b", "lambda anp, x, y: anp.linalg.solve(x + 3 * anp.eye(2), y)", [((3, 2, 2), "R"), ((3, 2, 2), "R")], (0, 1)),
+    ("solve stack of matrices, one vector", "lambda anp, x, y: anp.linalg.solve(x + 3 * anp.eye(2), y)", [((3, 2, 2), "R"), ((2,), "R")], (0, 1)),
+    ("solve stack of matrices, one matrix", "lambda anp, x, y: anp.linalg.solve(x + 3 * anp.eye(2), y)", [((3, 2, 2), "R"), ((2, 2), "R")], (0, 1)),
+    ("solve broadcast batch both", "lambda anp, x, y: anp.linalg.solve(x + 3 * anp.eye(2), y)", [((2, 1, 2, 2), "R"), ((3, 2, 1), "R")], (0, 1)),
+    ("solve broadcast A", "lambda anp, x, y: anp.linalg.solve(x + 3 * anp.eye(2), y)", [((2, 2), "R"), ((3, 2, 2), "R")], (0, 1)),
+    ("matrix_power 0", "lambda anp, x: anp.linalg.matrix_power(x, 0) + x", [((2, 2), "R")], (0,)),
+    ("matrix_power 2 stacked", "lambda anp, x: anp.linalg.matrix_power(x, 2)", [((2, 2, 2), "R")], (0,)),
+    ("cholesky then solve", "lambda anp, x, y: anp.linalg.solve(anp.linalg.cholesky(anp.dot(x, x.T) + 4 * anp.eye(3)), y)", [((3, 3), "R"), ((3,), "R")], (0, 1)),
+    ("norm of inv", "lambda anp, x: anp.linalg.norm(anp.linalg.inv(x + 3 * anp.eye(2)), 'fro')", [((2, 2), "R")], (0,)),
+    ("norm keepdims tuple axis", "lambda anp, x: anp.linalg.norm(x, axis=(0, 2), keepdims=True)", [((2, 3, 2), "R")], (0,)),
+    ("norm nuc keepdims", "lambda anp, x: anp.linalg.norm(x, 'nuc', axis=(1, 2), keepdims=True)", [((2, 2, 3), "R")], (0,)),
+    ("norm ord=2 vector axis", "lambda anp, x: anp.linalg.norm(x, 2, axis=0)", [((3, 2), "R")], (0,)),
+    ("norm ord=2 matrix", "lambda anp, x: anp.linalg.norm(x, 2)", [((3, 2), "R")], (0,)),
+    ("norm ord=2 tuple axis", "lambda anp, x: anp.linalg.norm(x, 2, axis=(0, 1))", [((2, 2, 2), "R")], (0,)),
+    ("tensorsolve", "lambda anp, x, y: anp.linalg.tensorsolve(x.reshape(2, 2, 4) + anp.eye(4).reshape(2, 2, 4) * 3, y)", [((4, 4), "R"), ((2, 2), "R")], (0, 1)),
+    ("tensorinv", "lambda anp, x: anp.linalg.tensorinv(x.reshape(4, 2, 2) + anp.eye(4).reshape(4, 2, 2) * 3, ind=1)", [((4, 4), "R")], (0,)),
+    ("cond", "lambda anp, x: anp.linalg.cond(x + 3 * anp.eye(2))", [((2, 2), "R")], (0,)),
+    ("matrix_rank blocks flow", "lambda anp, x: x * anp.linalg.matrix_rank(x)", [((2, 2), "R")], (0,)),
+    ("lstsq", "lambda anp, x, y: anp.linalg.lstsq(x, y, rcond=None)[0]", [((3, 2), "R"), ((3,), "R")], (0, 1)),
+    # reductions: option combinations
+    ("var tuple axis keepdims ddof", "lambda anp, x: anp.var(x, axis=(0, -1), keepdims=True, ddof=1)", [((2, 3, 2), "R")], (0,)),
+    ("std tuple axis keepdims ddof", "lambda anp, x: anp.std(x, axis=(1, 0), keepdims=True, ddof=1)", [((2, 3, 2), "R")], (0,)),
+    ("std axis=None keepdims", "lambda anp, x: anp.std(x, keepdims=True)", [((2, 3), "R")], (0,)),
+    ("mean tuple negative axes keepdims", "lambda anp, x: anp.mean(x, axis=(-1, -3), keepdims=True)", [((2, 3, 2), "R")], (0,)),
+    ("prod tuple axis keepdims", "lambda anp, x: anp.prod(x, axis=(0, 2), keepdims=True)", [((2, 3, 2), "P")], (0,)),
+    ("max tuple axis keepdims", "lambda anp, x: anp.max(x, axis=(0, 2), keepdims=True)", [((2, 3, 2), "P")], (0,)),
+    ("min negative axis keepdims", "lambda anp, x: anp.min(x, axis=-2, keepdims=True)", [((2, 3, 2), "P")], (0,)),
+    ("amax with ties", "lambda anp, x: anp.amax(anp.concatenate([x, x]), axis=0)", [((3,), "P")], (0,)),
+    ("sum of broadcast product negative axis", "lambda anp, x, y: anp.sum(x * y, axis=-1, keepdims=True)", [((2, 1, 3), "R"), ((4, 1), "R")], (0, 1)),
+    ("cumsum then reverse then diff", "lambda anp, x: anp.diff(anp.cumsum(x, axis=1)[:, ::-1], axis=1)", [((2, 4), "R")], (0,)),
+    ("gradient of its own gradient chain", "lambda anp, x: anp.gradient(anp.gradient(x))", [((5,), "R")], (0,)),
+    ("einsum repeated label operand", "lambda anp, x, y: anp.einsum('iij,jk->ik', x, y)", [((2, 2, 3), "R"), ((3, 2), "R")], (0, 1)),
+    ("einsum implicit output", "lambda anp, x, y: anp.einsum('ij,jk', x, y)", [((2, 3), "R"), ((3, 2), "R")], (0, 1)),
+    ("einsum implicit output transposes", "lambda anp, x, y: anp.einsum('ba,ca', x, y)", [((2, 3), "R"), ((4, 3), "R")], (0, 1)),
+    ("einsum trace of product", "lambda anp, x, y: anp.einsum('ij,ji', x, y)", [((2, 3), "R"), ((3, 2), "R")], (0, 1)),
+    ("einsum scalar operand", "lambda anp, x, y: anp.einsum(',ij->ij', x, y)", [((), "R"), ((2, 2), "R")], (0, 1)),
+    ("matmul broadcast both batch", "lambda anp, x, y: anp.matmul(x, y)", [((2, 1, 2, 3), "R"), ((3, 3, 2), "R")], (0, 1)),
+    ("matmul vec x batch", "lambda anp, x, y: anp.matmul(x, y)", [((3,), "R"), ((2, 3, 2), "R")], (0, 1)),
+    ("matmul batch x vec", "lambda anp, x, y: anp.matmul(x, y)", [((2, 2, 3), "R"), ((3,), "R")], (0, 1)),
+    ("dot N-D x N-D", "lambda anp, x, y: anp.dot(x, y)", [((2, 2, 3), "R"), ((2, 3, 2), "R")], (0, 1)),
+    ("dot 1-D x N-D", "lambda anp, x, y: anp.dot(x, y)", [((3,), "R"), ((2, 3, 2), "R")], (0, 1)),
+    ("dot N-D x 1-D", "lambda anp, x, y: anp.dot(x, y)", [((2, 2, 3), "R"), ((3,), "R")], (0, 1)),
+    ("tensordot 0-d", "lambda anp, x, y: anp.tensordot(x, y, 0)", [((), "R"), ((2, 2), "R")], (0, 1)),
+    ("tensordot 1-d x 3-d axes=1", "lambda anp, x, y: anp.tensordot(x, y, 1)", [((3,), "R"), ((3, 2, 2), "R")], (0, 1)),
+    ("pad tuple widths per axis", "lambda anp, x: anp.pad(x, ((1, 2), (0, 1)), mode='constant')", [((2, 3), "R")], (0,)),
+    ("pad single int 3-D", "lambda anp, x: anp.pad(x, 1, mode='constant')", [((2, 1, 2), "R")], (0,)),
+    ("pad pair", "lambda anp, x: anp.pad(x, (2, 1), mode='constant')", [((2, 2), "R")], (0,)),
+    ("getitem mixed int slice array", "lambda anp, x: x[1, ::-1, [0, 2, 2]]", [((2, 3, 3), "R")], (0,)),
+    ("getitem bool mask then int", "lambda anp, x: x[" + _np + ".array([True, False, True])][1]", [((3, 2), "R")], (0,)),
+    ("getitem newaxis ellipsis int", "lambda anp, x: x[None, ..., 1]", [((2, 3), "R")], (0,)),
+    ("getitem two index arrays broadcast", "lambda anp, x: x[" + _np + ".array([[0], [1]]), " + _np + ".array([0, 2, 2])]", [((2, 3), "R")], (0,)),
+    ("transpose then reshape F", "lambda anp, x: anp.reshape(anp.transpose(x, (2, 0, 1)), (4, 3), order='F')", [((2, 3, 2), "R")], (0,)),
+    ("repeat then tile", "lambda anp, x: anp.tile(anp.repeat(x, 2, axis=1), (2, 1))", [((2, 2), "R")], (0,)),
+    ("tile scalar", "lambda anp, x: anp.tile(x, 3)", [((), "R")], (0,)),
+    ("repeat scalar", "lambda anp, x: anp.repeat(x, 3)", [((), "R")], (0,)),
+    ("where broadcast all three", "lambda anp, x, y: anp.where(" + _np + ".array([[True], [False]]), x, y)", [((3,), "R"), ((2, 1), "R")], (0, 1)),
+    ("maximum of x with itself shifted", "lambda anp, x: anp.maximum(x[:-1], x[1:])", [((5,), "P")], (0,)),
+    ("stack of slices", "lambda anp, x: anp.stack([x[0], x[1] * 2, x[0] * x[1]], axis=1)", [((2, 3), "R")], (0,)),
+    ("concatenate of 0-size piece", "lambda anp, x, y: anp.concatenate([x[:0], y, x])", [((2,), "R"), ((3,), "R")], (0, 1)),
+    ("flatten via builtins of arrays", "lambda anp, x, y: __import__('autograd.misc.flatten', fromlist=['flatten']).flatten({'b': x * 2, 'a': [y, x[0]]})[0]", [((2,), "R"), ((2, 2), "R")], (0, 1)),
+]
 VALS = [0.5, -1.25, 2.0, 0.75, -0.5, 1.5, 3.0, -2.25, 0.25, 1.0, -0.75, 2.5, 1.75, -1.5, 0.625, 2.25, -0.375, 1.125]
 
 
